@@ -164,7 +164,8 @@ impl SourceFormat {
     /// presented video is determined by both this aspect ratio and the pixel
     /// aspect ratio of this source format.
     ///
-    /// This function returns `None` if the source format is `Reserved`.
+    /// This function returns `None` if the source format is `Reserved`, or if
+    /// a custom format declares a zero width or height.
     pub fn into_width_and_height(self) -> Option<(u16, u16)> {
         match self {
             Self::SubQcif => Some((128, 96)),
@@ -174,7 +175,11 @@ impl SourceFormat {
             Self::SixteenCif => Some((1408, 1152)),
             Self::Reserved => None,
             Self::Extended(cpf) => {
-                Some((cpf.picture_width_indication, cpf.picture_height_indication))
+                if cpf.picture_width_indication == 0 || cpf.picture_height_indication == 0 {
+                    None
+                } else {
+                    Some((cpf.picture_width_indication, cpf.picture_height_indication))
+                }
             }
         }
     }
